@@ -675,13 +675,23 @@ static std::string run_case(const std::vector<std::string> &t)
             o << " " << j;
             if (j != kron(za, zn))
                 complain("jacobi differs from the definition");
-            if (zn > 2 and is_prime(zn)) {
+            if (zn > 2 and zn < 100000 and is_prime(zn)) {
                 int l = legendre(*A, *N);
                 o << " " << l;
                 if (l != kron(za, zn))
                     complain("legendre differs from the definition");
             }
         }
+    } else if (c == "leg" and n == 2) {
+        // legendre(a, p) for an odd prime p (the caller guarantees primality)
+        RCP<const Integer> A = INT(t[1]), P = INT(t[2]);
+        int l = legendre(*A, *P);
+        o << l;
+        Z za(t[1]), zp(t[2]);
+        Z e = zpowm(za, (zp - 1) / 2, zp);
+        int want = e == 0 ? 0 : (e == 1 ? 1 : -1);
+        if (l != want)
+            complain("legendre contradicts Euler's criterion");
     } else if (c == "qr" and n == 1) {
         vec_integer_class v = quadratic_residues(*INT(t[1]));
         o << "[";
